@@ -484,3 +484,7 @@ func check(t *testing.T, c Case) (v *stats.Verdict) {
 func TestC05(t *testing.T) {
 	stats.Run(t, stats.Prop[Case]{ID: "C05", Rule: ruleC05, Gen: gen, Check: check})
 }
+
+func FuzzC05(f *testing.F) {
+	stats.Fuzz(f, stats.Prop[Case]{ID: "C05", Rule: ruleC05, Gen: gen, Check: check})
+}
